@@ -122,3 +122,37 @@ def r_density_shape(cname) -> bool:
         if not math.isclose(got, exp, rel_tol=1e-9, abs_tol=1e-12):
             return rt.fail(f"C15:{cname}:density-is-not-the-derivative-of-the-cdf", f"{cname}{params} at {xx}: {got} expected {exp}")
     return True
+
+
+def r_discrete_uniform(lo, hi) -> bool:
+    """real DistDiscreteUniform on a real MersenneTwister whose generator delivers a fine grid of uniforms:
+    every value of the support must be hit by a u-interval of length 1/n"""
+    from pydsol.core.streams import MersenneTwister
+
+    class Grid:
+        def __init__(self):
+            self.i = 0
+
+        def random(self):
+            v = (self.i + 0.5) / 7000.0
+            self.i += 1
+            return v
+
+        def seed(self, s):
+            self.i = 0
+    for a, b in ((lo, hi), (-3, 3), (-5, -1), (0, 6), (2, 8)):
+        st = MersenneTwister(1)
+        st._random = Grid()
+        d = D.DistDiscreteUniform(st, a, b)
+        counts = {}
+        for _ in range(7000):
+            v = d.draw()
+            counts[v] = counts.get(v, 0) + 1
+        n = b - a + 1
+        for k in range(a, b + 1):
+            if abs(counts.get(k, 0) / 7000.0 - d.probability(k)) > 2.0 / 7000 * n:
+                return rt.fail("C15:DistDiscreteUniform:draw-frequencies-disagree-with-probability",
+                               f"[{a},{b}]: value {k} drawn on {counts.get(k, 0)}/7000 of an equidistant u-grid, probability {d.probability(k)}")
+        if any(k < a or k > b for k in counts):
+            return rt.fail("C15:DistDiscreteUniform:draw-outside-support", f"[{a},{b}]: {sorted(counts)}")
+    return True
